@@ -36,17 +36,18 @@ func Gen(r *sx.Rng, idx int, focus string) sx.Tree {
 	return genScenario(r, focus)
 }
 
-func opPump(p, k int64) sx.Tree     { return sx.Ints(1, p, k) }
-func opStale(p, d int64) sx.Tree    { return sx.Ints(2, p, d) }
-func opRaw(p, o int64) sx.Tree      { return sx.Ints(3, p, o) }
-func opAhead(p, d int64) sx.Tree    { return sx.Ints(13, p, d) }
-func opMain(p, o int64) sx.Tree     { return sx.Ints(4, p, o) }
-func opRefresh() sx.Tree            { return sx.Ints(6) }
-func opRevoke() sx.Tree             { return sx.Ints(8) }
-func opCrash() sx.Tree              { return sx.Ints(12) }
-func opRecCrash(p int64) sx.Tree    { return sx.Ints(14, p) }
+func opPump(p, k int64) sx.Tree       { return sx.Ints(1, p, k) }
+func opStale(p, d int64) sx.Tree      { return sx.Ints(2, p, d) }
+func opRaw(p, o int64) sx.Tree        { return sx.Ints(3, p, o) }
+func opAhead(p, d int64) sx.Tree      { return sx.Ints(13, p, d) }
+func opWild(p, d int64) sx.Tree       { return sx.Ints(15, p, d) }
+func opMain(p, o int64) sx.Tree       { return sx.Ints(4, p, o) }
+func opRefresh() sx.Tree              { return sx.Ints(6) }
+func opRevoke() sx.Tree               { return sx.Ints(8) }
+func opCrash() sx.Tree                { return sx.Ints(12) }
+func opRecCrash(p int64) sx.Tree      { return sx.Ints(14, p) }
 func opRequest(p, f, t int64) sx.Tree { return sx.Ints(9, p, f, t) }
-func opSetOwned(ps []int64) sx.Tree { return sx.T(sx.L(7), sx.Ints(ps...)) }
+func opSetOwned(ps []int64) sx.Tree   { return sx.T(sx.L(7), sx.Ints(ps...)) }
 func opKErr(code int64, wmerr bool, lows [][2]int64) sx.Tree {
 	l := []sx.Tree{}
 	for _, x := range lows {
@@ -167,6 +168,7 @@ func genScenario(r *sx.Rng, focus string) sx.Tree {
 	if focus == "C19" {
 		mainPct = 25
 	}
+	wild := r.Chance(12) // only a minority of cases is exposed to the known finding F11
 	steps := int(r.Range(3, 30))
 	lateAt := -1
 	if late >= 0 {
@@ -187,6 +189,19 @@ func genScenario(r *sx.Rng, focus string) sx.Tree {
 		w := wins[r.Intn(len(wins))]
 		size := w.t - w.f
 		switch {
+		case wild && r.Chance(10):
+			// unrestricted straggler (F11 exposure), often followed by what turns it into a loss: a re-assignment
+			ops = append(ops, opWild(w.p, r.Range(0, size+1)))
+			switch r.Intn(4) {
+			case 0:
+				ops = append(ops, opRevoke())
+				setOwned()
+				ops = append(ops, opRefresh())
+			case 1:
+				ops = append(ops, opCrash())
+				setOwned()
+				ops = append(ops, opRefresh())
+			}
 		case r.Chance(7):
 			ops = append(ops, opAhead(w.p, r.Range(0, 4)))
 		case r.Chance(mainPct):
@@ -301,10 +316,13 @@ func genChaos(r *sx.Rng, focus string) sx.Tree {
 		case 0, 1, 2:
 			ops = append(ops, opPump(part(), r.Range(1, 12)))
 		case 3:
-			if r.Bool() {
+			switch r.Intn(5) {
+			case 0, 1:
 				ops = append(ops, opStale(part(), r.Range(0, 10)))
-			} else {
+			case 2, 3:
 				ops = append(ops, opAhead(part(), r.Range(0, 5)))
+			default:
+				ops = append(ops, opWild(part(), r.Range(0, 12)))
 			}
 		case 4, 5:
 			ops = append(ops, opRaw(part(), off()))
